@@ -11,10 +11,12 @@ def run(run):
     run.rule = ('cases = GraphSM behaviours ending in or containing Prune after label-changing actions (Analyse, Touch of '
                 'labels) on graphs with user-added nodes and edges; non-trivial = behaviour in which Prune removes at '
                 'least one node or two graph actions precede it; distinct by action sequence')
-    gsm.mc_slice(run, 'C13', 6 if quick else 7, depth=6 if quick else 7, must=('Prune', 'Analyse', 'Touch'))
+    gsm.mc_slice(run, 'C13', 6, depth=6, must=('Prune', 'Analyse', 'Touch'))
     gsm.bfs_slice(run, 'C13', 4 if quick else 5, keep=KEEP)
     # pruning a graph that was saved and loaded (node order of the file), and after an attacker gave up an entry point
     gsm.bfs_slice(run, 'C13L', 5 if quick else 6, keep=KEEP, env={'VERIF_TOUCH': 'label'})
     gsm.simulate(run, 'C13', 12, 3000 if quick else 50000, keep=KEEP, lang='LDef', timeout=300 if quick else 1800)
     gsm.simulate(run, 'ALL', 14, 2000 if quick else 30000, keep=KEEP, timeout=300 if quick else 1800)
     gsm.simulate(run, 'C13', 10, 1500 if quick else 20000, keep=KEEP, lang='LSet', timeout=300 if quick else 1800)
+    if not quick:
+        gsm.mc_slice(run, 'C13', 7, depth=7, must=('Prune', 'Analyse', 'Touch'))          # larger design check last
